@@ -231,4 +231,34 @@ theorem rename_before_close_is_not_atomic :
 example : (applyAll { dest := some [9, 9] } (outputToFile [[1], [2], [3]] (.serializer 2))).dest = some [9, 9] := by decide
 example : (applyAll { dest := some [9, 9] } (atomicWrite [[1], [2], [3]] true .none)).dest = some [1, 2, 3] := by decide
 
+/-! #### two simultaneous calls of one callback -/
+
+theorem applyAll2_split : ∀ (ops : List (Bool × FsOp)) (s : Fs × Fs),
+    applyAll2 s ops = (applyAll s.1 (opsOf false ops), applyAll s.2 (opsOf true ops))
+  | [], s => by simp [applyAll2, applyAll, opsOf]
+  | (b, o) :: ops, s => by
+    have ih := applyAll2_split ops (apply2 s (b, o))
+    simp only [applyAll2, List.foldl_cons] at ih ⊢
+    rw [ih]
+    cases b <;> simp [apply2, opsOf, applyAll, List.filter_cons]
+
+/-- C17, one callback object serving two tests at once: however the file-system operations of the two calls
+    interleave, each destination ends up exactly as if its call had run alone — in particular, if both calls are
+    fault-free, each destination holds exactly its own serialization (the calls share no handle and no
+    temporary file) -/
+theorem c17_interleaved_calls_are_independent (ops : List (Bool × FsOp)) (old0 old1 : Option Bytes)
+    (chunks0 chunks1 : List Bytes)
+    (h0 : opsOf false ops = outputToFile chunks0 .none) (h1 : opsOf true ops = outputToFile chunks1 .none) :
+    (applyAll2 ({ dest := old0 }, { dest := old1 }) ops).1.dest = some (full chunks0) ∧
+    (applyAll2 ({ dest := old0 }, { dest := old1 }) ops).2.dest = some (full chunks1) := by
+  rw [applyAll2_split]
+  simp only [h0, h1]
+  exact ⟨(c17_success_exact old0 chunks0 false).1, (c17_success_exact old1 chunks1 false).1⟩
+
+/-- what sharing the handle between the calls does: the second call's `open` replaces the handle the first call
+    writes through, so the first destination is published truncated -/
+example : (applyAll { dest := none } ([.createTemp] ++ ([] : List Bytes).map .append ++ [.close] ++ [.rename])).dest
+    ≠ some (full [[1], [2]]) := by decide
+
+
 end OpenHTF.AtomicFile
